@@ -26,7 +26,8 @@ LEVEL_TEXT = ("Theorems in coq/Props/C11.v about the executable heap model coq/H
               "histories (<= 40 calls, several builders sharing structure, misuse included) a Go harness ran against the real "
               "library, re-dumping every node twice after every step.")
 LEVEL_NOTE = ("Modelled, not verified: the Go code of node/basicnode, matcher.go Slice, datamodel.Copy, FocusedTransform (as API clients "
-              "in coq/Heap/Script.v), bytes.Reader / io.SectionReader / readerat (net effect of io.ReadAll). Nodes of other "
+              "in coq/Heap/Script.v), bytes.Reader / io.SectionReader / readerat (net effect of io.ReadAll). bindnode and gendemo have NO model: "
+              "for them the check is the oracle alone (held children re-dumped; class typed_child_changed). Nodes of other "
               "implementations are modelled as immutable values (RForeign). The theorems are about API-call histories; that the "
               "script-level clients (copy, transform, decoders, dump, the re-dump after every step) are such histories is "
               "C11_scripts_are_legal_histories / C11_script_stable. Uint nodes, links and huge size hints are not exercised.")
@@ -36,7 +37,8 @@ RULE = ("histories from a stateful generator that tracks the builder contract (m
         "over builders of every basicnode prototype, nested assemblers, AssignNode of earlier nodes (shortcut and copy paths), Reset and "
         "reuse, Copy, lookups, subset matches, FocusedTransform, dag-cbor encode, walks, AsLargeBytes readers kept alive (partial reads, "
         "seeks, interleaved with no re-dump in between), nodes from dag-cbor/dag-json decoders and a "
-        "foreign node implementation; plus a fixed corpus of witnesses; distinct = distinct script; non-trivial = more than 3 calls")
+        "foreign node implementation; plus a fixed corpus of witnesses; plus (oracle level only, no model) bindnode and gendemo nodes of 0-100 "
+        "elements whose every handed-out child is held and re-dumped while iterating, looking up, copying, encoding; distinct = distinct script; non-trivial = more than 3 calls")
 EXPLANATION = ("verdict per case: on a Legal history any node register whose re-dump differs from its first dump, or whose two dumps taken "
                "at one step differ, is a failure; class streambytes_second_read when the node contains a streamBytes and only bytes "
                "tokens differ, else node_changed / read_not_repeatable. Histories after a misuse step are vacuous for the oracle but "
